@@ -595,3 +595,139 @@ _run_before_r8 = run
 def run(ctx):
     _run_before_r8(ctx)
     r8_both_hints_honoured(ctx)
+
+
+def r9_written_piece_letters_are_white(ctx):
+    """SAN piece letters are upper case for both colours"""
+    rid = "C14.R9"
+    ctx.rule(rid, "the piece letters uci_to_pgn writes (leading letter, promotion suffix) are the letters of white pieces: the ColoredPiece whose `fen` is formatted comes from to_white / to_color(WHITE) of the move's piece kind, not from a piece looked up on the board (a black piece's letter is lower case: `c1=q` is not SAN and the reader rejects it)", floor=1)
+    prog = ctx.prog
+    f = ctx.fn(rid, BB + "uci_to_pgn", positional=False)
+    ex = Exprs(f)
+    scope = [BB + "uci_to_pgn"] + sorted(k for k in prog.fns if k.startswith(BB + "uci_to_pgn::"))
+
+    def reads_fen_of_param(g):
+        for bb in g["blocks"]:
+            pls = [s["rv"]["place"] for s in bb["stmts"] if "place" in s["rv"]] + [a["pl"] for s in bb["stmts"] for a in s["rv"].get("a", []) if a.get("k") in ("copy", "move")]
+            for pl in pls:
+                if pl["l"] == 2 and any(isinstance(e, dict) and e.get("name") == "fen" and "ColoredPiece" in str(e.get("of")) for e in pl["p"]):
+                    return True
+        return False
+
+    def calls_of(key):
+        g = prog.fns.get(key)
+        return [(b["term"]["callee"].get("key") or "") for b in (g["blocks"] if g else []) if b["term"]["k"] == "call" and not b["cleanup"]]
+
+    n = 0
+    for bb in f["blocks"]:
+        t = bb["term"]
+        if t["k"] != "call" or bb["cleanup"]:
+            continue
+        args = [ex.operand(a) for a in t["args"]]
+        cls_ = [a for a in args if a[0] == "agg" and a[1] == "closure" and prog.fns.get(a[2]) and reads_fen_of_param(prog.fns[a[2]])]
+        if not cls_ or not args:
+            continue
+        # where does the piece whose letter is formatted come from: calls in the receiver's tree, closures included
+        sources, seen = [], set()
+
+        def walk(x, depth=0):
+            if not isinstance(x, tuple) or depth > 10:
+                return
+            if x[0] == "call":
+                sources.append(x[1])
+                for y in x[2]:
+                    walk(y, depth + 1)
+            elif x[0] == "agg":
+                if x[1] == "closure":
+                    sources.extend(calls_of(x[2]))
+                for y in x[3]:
+                    walk(y, depth + 1)
+            elif x[0] == "local":
+                if x[1] in seen:
+                    return
+                seen.add(x[1])
+                for dfn in ex.defs.get(x[1], ()):
+                    if dfn[0] == "stmt":
+                        walk(ex.rvalue(dfn[3]), depth + 1)
+                    elif dfn[0] == "call":
+                        tt = dfn[3]
+                        walk(("call", tt["callee"].get("key") or "?", tuple(ex.operand(a_) for a_ in tt["args"]), ""), depth + 1)
+            elif x[0] in ("&", "*", "f", "dc", "cast"):
+                walk(x[1] if x[0] != "cast" else x[2], depth + 1)
+        walk(args[0])
+        n += 1
+        whitened = any(s.rsplit("::", 1)[-1] in ("to_white", "to_color", "to_ascii_uppercase", "to_uppercase") for s in sources)
+        from_board = [s for s in sources if s.startswith(BB) and "piece" in s.rsplit("::", 1)[-1]]
+        if from_board and not whitened:
+            ctx.ob(rid, "letter|from-a-white-piece", False,
+                   "uci_to_pgn formats the `fen` letter of a piece it looked up on the board (%s) without making it white: for a black piece the letter is lower case, so black promotions are written `c1=q` - not SAN, and pgn_to_bb rejects the text the writer produced" % ", ".join(sorted({s.rsplit("::", 1)[-1] for s in from_board})),
+                   ctx.where(f, t["line"]))
+        elif whitened:
+            ctx.ob(rid, "letter|from-a-white-piece", True, "", ctx.where(f, t["line"]))
+        else:
+            ctx.lost(rid, "where the piece whose letter uci_to_pgn formats comes from")
+    if not n:
+        ctx.lost(rid, "a closure of uci_to_pgn that formats a ColoredPiece's letter")
+
+
+_run_before_r9_letters = run
+
+
+def run(ctx):
+    _run_before_r9_letters(ctx)
+    r9_written_piece_letters_are_white(ctx)
+
+
+def r10_grammar_classes_disjoint(ctx):
+    """a leading letter is a piece letter or a file letter, never both"""
+    rid = "C14.R10"
+    ctx.rule(rid, "in the SAN grammar the piece-letter class and the file-letter class are disjoint (and the piece / promotion classes contain exactly the letters the writer emits): a letter in both is taken as the piece by the optional group, so `bxc3` is read as a bishop move", floor=1)
+    import re
+    prog = ctx.prog
+    pats = set()
+    for k, f in prog.fns.items():
+        if not k.startswith("inkayaku_board::") or f.get("test"):
+            continue
+        for bb in f["blocks"]:
+            ops = [a for s in bb["stmts"] for a in s["rv"].get("a", [])] + list(bb["term"].get("args") or [])
+            for a in ops:
+                if a.get("k") == "const" and isinstance(a.get("v"), str) and "(?P<piece>" in a["v"]:
+                    pats.add((a["v"], k))
+    if not pats:
+        ctx.lost(rid, "the SAN grammar (a regex literal with a group named `piece`)")
+        return
+    for pat, k in sorted(pats):
+        def cls(name):
+            m = re.search(r"\(\?P<%s>\[([^\]]+)\]" % name, pat)
+            if not m:
+                return None
+            out, s_ = set(), m.group(1)
+            i = 0
+            while i < len(s_):
+                if i + 2 < len(s_) and s_[i + 1] == "-":
+                    out |= {chr(c) for c in range(ord(s_[i]), ord(s_[i + 2]) + 1)}
+                    i += 3
+                else:
+                    out.add(s_[i]); i += 1
+            return out
+        piece, ffile, promo = cls("piece"), cls("from_file"), cls("promotion")
+        if piece is None or ffile is None:
+            ctx.lost(rid, "the piece / from_file character classes of the SAN grammar")
+            continue
+        both = sorted(piece & ffile)
+        ok = not both
+        if ok and not (piece == set("BNRQK") and (promo is None or promo == set("BNRQ"))):
+            ctx.lost(rid, "a SAN grammar whose piece / promotion classes are %s / %s (the writer emits BNRQK / BNRQ)" % ("".join(sorted(piece)), "".join(sorted(promo or []))))
+            continue
+        ctx.ob(rid, "grammar|piece-and-file-letters", ok,
+               "" if ok else ("the SAN grammar accepts %s as a piece letter and as a file letter: the optional piece group takes it first, so a capture by the %s-pawn (`%sxc3`) is looked up among the moves of that piece - an error for correct SAN, or silently another move" % (both, both[0], both[0]) if both
+                              else "the SAN grammar's piece class is %s and its promotion class %s; the writer emits exactly BNRQK / BNRQ" % (sorted(piece), sorted(promo or []))),
+               ctx.where(prog.fns[k]), sample={"piece": "".join(sorted(piece)), "from_file": "".join(sorted(ffile))})
+
+
+_run_before_r10_grammar = run
+
+
+def run(ctx):
+    _run_before_r10_grammar(ctx)
+    r10_grammar_classes_disjoint(ctx)
